@@ -490,7 +490,10 @@ pub fn connect_cases(r: &mut Rng, n: usize) -> Vec<String> {
         }
         // direct oracle (C10): with identical families on both sides the connection is created, at the common
         // latest version, with every method matched
-        if labels.is_empty() && caller.defs.len() == callee.defs.len() && caller.defs.iter().zip(callee.defs.iter()).all(|(a, b)| a == b) && no_undefined_or_arg_future(&caller) {
+        if labels.is_empty() && caller.defs.len() == callee.defs.len() && caller.defs.iter().zip(callee.defs.iter()).all(|(a, b)| a == b) && no_undefined_or_arg_future(&caller)
+            // (more than 64 arguments is beyond what the by-reference mask can describe: refused as TooManyArguments)
+            && caller.defs.iter().all(|d| d.methods.iter().all(|m| m.info.arguments.len() <= 64))
+        {
             if !rep.starts_with("(ok") {
                 out.push(format!("!C10 identical-interfaces-do-not-connect caller={} got={}", fam_sx(&caller), &rep[..rep.len().min(100)]));
             } else if rep.contains(" - ") {
